@@ -35,9 +35,19 @@ pub use crate::tdes::{TdesEde2, TdesEde3, TdesEee2, TdesEee3};
 ///
 /// Returns 1 if the key is weak; otherwise, returns 0.
 fn weak_key_test(key: u64) -> u8 {
+    let key = key & PARITY_MASK;
     let mut is_weak = 0u8;
     for &weak_key in crate::consts::WEAK_KEYS {
-        is_weak |= u8::from(key == weak_key);
+        is_weak |= u8::from(key == weak_key & PARITY_MASK);
     }
     is_weak
+}
+
+/// Mask which clears the parity bit of every key byte (DES ignores them).
+/// The mask is the same in any byte order.
+const PARITY_MASK: u64 = 0xFEFE_FEFE_FEFE_FEFE;
+
+/// Checks whether two keys are the same DES key, i.e. equal up to parity bits.
+fn same_key(k1: u64, k2: u64) -> bool {
+    k1 & PARITY_MASK == k2 & PARITY_MASK
 }
